@@ -172,6 +172,152 @@ def alias_moved_functions(facts, body_cls, ref):
     return out
 
 
+# ---------------------------------------------------------------------------------------------
+# literal tables walked with find_map / find: the else-if chain they stand for
+def _new_local(rec, ty):
+    i = max(l['id'] for l in rec['locals']) + 1
+    rec['locals'].append({'id': i, 'ty': ty})
+    return i
+
+
+def _new_block(rec):
+    i = max(b['id'] for b in rec['blocks']) + 1
+    bl = {'id': i, 'cleanup': False, 'stmts': [], 'term': {'k': 'unreachable', 'loc': '', 'exp': False}}
+    rec['blocks'].append(bl)
+    return bl
+
+
+def _inline_at(rec, bl, h, args, dest, target, loc, tag):
+    """append to block `bl` the evaluation of body `h` on operand list `args`, result into place `dest`, then continue at
+    block id `target` (same mechanics as splice_into)"""
+    lo = max(l['id'] for l in rec['locals']) + 1
+    bo = max(b['id'] for b in rec['blocks']) + 1
+    hl = {l['id']: l['ty'] for l in h['locals']}
+    for k, a in enumerate(args, 1):
+        bl['stmts'].append({'k': 'assign', 'lhs': {'local': lo + k, 'proj': [], 'ty': hl.get(k, '?')}, 'rv': 'use', 'ops': [a], 'loc': loc, 'exp': False, 'spliced': tag})
+    bl['term'] = {'k': 'goto', 'target': bo, 'loc': loc, 'exp': False, 'spliced_call': tag}
+    for l in h['locals']:
+        rec['locals'].append({'id': l['id'] + lo, 'ty': l['ty']})
+    for hb in h['blocks']:
+        nb = _shift(hb, lo, bo)
+        nb['id'] = hb['id'] + bo
+        if nb['term']['k'] == 'return':
+            nb['stmts'].append({'k': 'assign', 'lhs': copy.deepcopy(dest), 'rv': 'use', 'ops': [{'move': {'local': lo, 'proj': [], 'ty': hl.get(0, '?')}}],
+                                'loc': loc, 'exp': False, 'spliced': tag})
+            nb['term'] = {'k': 'goto', 'target': target, 'loc': loc, 'exp': False}
+        rec['blocks'].append(nb)
+
+
+def desugar_table_searches(facts, body_cls):
+    """`TABLE.iter().find_map(|row| ..)` / `.find(|row| ..)` over a constant item that is a literal array of at most 16 rows
+    is the else-if chain `if let Some(v) = f(&TABLE[0]) { Some(v) } else if let Some(v) = f(&TABLE[1]) ..`: the call is
+    replaced by that chain in the exported MIR (the table's initialiser is spliced in once, the closure body once per row),
+    so every rule sees the per-row branches a hand-written chain would have. Returns [(function, table, rows)]."""
+    import re as _re
+    out = []
+    for q, b in list(facts.bodies.items()):
+        if b.kind not in ('fn', 'method', 'closure') or not b.file.startswith('src/'):
+            continue
+        sites = []
+        for i in b.normal_blocks:
+            t = b.blocks[i]['term']
+            c = t.get('callee') if t['k'] == 'call' else None
+            if c and _re.search(r'Iterator>?::(find_map|find)$', c['path']) and len(t['args']) == 2:
+                sites.append(i)
+        if not sites:
+            continue
+        rec = None
+        for i in sites:
+            cur = facts.bodies[q]
+            t = cur.blocks[i]['term']
+            which = t['callee']['path'].rsplit('::', 1)[1]
+            it = cur.expr(t['args'][0])
+            x = it
+            for _ in range(12):
+                if x[0] in ('ref', 'deref'):
+                    x = x[1]
+                elif x[0] == 'cast':
+                    x = x[3]
+                elif x[0] == 'call' and x[2] and _re.search(r'::(iter|into_iter)$', x[1]):
+                    x = x[2][0]
+                else:
+                    break
+            if x[0] != 'const' or not x[3] or not x[3].startswith('const '):
+                continue
+            tpath = x[3][len('const '):]
+            tb = facts.bodies.get(tpath)
+            if tb is None or tb.kind != 'const' or tb.loops():
+                continue
+            r = tb.ret_expr()
+            while r[0] in ('ref', 'deref'):
+                r = r[1]
+            if r[0] != 'aggr' or r[1] != 'array' or not (1 <= len(r[2]) <= 16):
+                continue
+            nrows = len(r[2])
+            clo_op = t['args'][1]
+            cp = clo_op.get('move') or clo_op.get('copy')
+            if not cp or cp['proj']:
+                continue
+            ce = cur.expr(clo_op)
+            while ce[0] in ('ref', 'deref'):
+                ce = ce[1]
+            if ce[0] != 'aggr' or not str(ce[1]).startswith('closure:'):
+                continue
+            cb = facts.bodies.get(ce[1][8:])
+            if cb is None or cb.argc != 2 or len(cb.blocks) > 60:
+                continue
+            if rec is None:
+                rec = copy.deepcopy(cur.rec)
+            bl = next(bb for bb in rec['blocks'] if bb['id'] == i)
+            t = bl['term']
+            loc = t['loc']
+            target = t.get('target')
+            if target is None or target < 0:
+                continue
+            dest = t['dest']
+            tty = tb.locals.get(0, '?')
+            row_ty = _re.sub(r'^\[(.*); \d+\]$', r'\1', tty)
+            T = _new_local(rec, tty)
+            nxt = _new_block(rec)
+            _inline_at(rec, bl, tb.rec, [], {'local': T, 'proj': [], 'ty': tty}, nxt['id'], loc, tpath)
+            ret_ty = cb.locals.get(0, '?')
+            env_ty = cb.locals.get(1, '?')
+            item_ty = cb.locals.get(2, '?')
+            for k in range(nrows):
+                cur_bl = nxt
+                ref_l = _new_local(rec, item_ty)
+                env_l = _new_local(rec, env_ty)
+                tmp_l = _new_local(rec, ret_ty)
+                cur_bl['stmts'].append({'k': 'assign', 'lhs': {'local': ref_l, 'proj': [], 'ty': item_ty}, 'rv': 'ref',
+                                        'ops': [{'copy': {'local': T, 'proj': [{'cidx': k}], 'ty': row_ty}}], 'mut': False, 'loc': loc, 'exp': False})
+                cur_bl['stmts'].append({'k': 'assign', 'lhs': {'local': env_l, 'proj': [], 'ty': env_ty}, 'rv': 'ref',
+                                        'ops': [{'copy': copy.deepcopy(cp)}], 'mut': True, 'loc': loc, 'exp': False})
+                test = _new_block(rec)
+                _inline_at(rec, cur_bl, cb.rec, [{'move': {'local': env_l, 'proj': [], 'ty': env_ty}}, {'move': {'local': ref_l, 'proj': [], 'ty': item_ty}}],
+                           {'local': tmp_l, 'proj': [], 'ty': ret_ty}, test['id'], loc, cb.path)
+                hit = _new_block(rec)
+                nxt = _new_block(rec)
+                if which == 'find_map':
+                    d_l = _new_local(rec, 'isize')
+                    test['stmts'].append({'k': 'assign', 'lhs': {'local': d_l, 'proj': [], 'ty': 'isize'}, 'rv': 'discr',
+                                          'ops': [{'copy': {'local': tmp_l, 'proj': [], 'ty': ret_ty}}], 'loc': loc, 'exp': False})
+                    test['term'] = {'k': 'switch', 'discr': {'move': {'local': d_l, 'proj': [], 'ty': 'isize'}}, 'vals': [[1, hit['id']]], 'otherwise': nxt['id'], 'loc': loc, 'exp': False}
+                    hit['stmts'].append({'k': 'assign', 'lhs': copy.deepcopy(dest), 'rv': 'use', 'ops': [{'move': {'local': tmp_l, 'proj': [], 'ty': ret_ty}}], 'loc': loc, 'exp': False})
+                else:       # find: the predicate's bool selects the row reference itself
+                    test['term'] = {'k': 'switch', 'discr': {'move': {'local': tmp_l, 'proj': [], 'ty': 'bool'}}, 'vals': [[0, nxt['id']]], 'otherwise': hit['id'], 'loc': loc, 'exp': False}
+                    r2 = _new_local(rec, item_ty)
+                    hit['stmts'].append({'k': 'assign', 'lhs': {'local': r2, 'proj': [], 'ty': item_ty}, 'rv': 'ref',
+                                         'ops': [{'copy': {'local': T, 'proj': [{'cidx': k}], 'ty': row_ty}}], 'mut': False, 'loc': loc, 'exp': False})
+                    hit['stmts'].append({'k': 'assign', 'lhs': copy.deepcopy(dest), 'rv': 'aggr', 'ops': [{'move': {'local': r2, 'proj': [], 'ty': item_ty}}],
+                                         'adt': 'core::option::Option::Some', 'fields': ['core::option::Option.0'], 'loc': loc, 'exp': False})
+                hit['term'] = {'k': 'goto', 'target': target, 'loc': loc, 'exp': False}
+            nxt['stmts'].append({'k': 'assign', 'lhs': copy.deepcopy(dest), 'rv': 'aggr', 'ops': [], 'adt': 'core::option::Option::None', 'fields': [], 'loc': loc, 'exp': False})
+            nxt['term'] = {'k': 'goto', 'target': target, 'loc': loc, 'exp': False}
+            out.append((q, tpath, nrows))
+            facts.bodies[q] = body_cls(rec, facts)
+    return out
+
+
 def splice_new_helpers(facts, body_cls):
     """see module docstring; returns [(helper path, [callers])] for the evidence"""
     ref = reference()
